@@ -453,11 +453,20 @@ def coq_str(s):
     return '"' + s.replace('"', "'") + '"'
 
 
+FLAGS = {"dry_run": 0, "set_append_only_is_false": 1, "set_append_only_is_true": 2}
+
+
+def flag_no(n):
+    n = norm_flag(n)
+    if n not in FLAGS:
+        FLAGS[n] = len(FLAGS)
+    return FLAGS[n]
+
+
 def coq_conds(cs):
     out = []
     for (n, v) in cs:
-        n = norm_flag(n)
-        out.append("(%s, %s)" % (coq_str(n), "true" if v else "false"))
+        out.append("(%d%%N (* %s *), %s)" % (flag_no(n), norm_flag(n).replace("*)", "* )").replace("(*", "( *"), "true" if v else "false"))
     return "[" + "; ".join(out) + "]"
 
 
@@ -549,10 +558,12 @@ def gen_dry(S, out, meta):
 
 
 def gen(repo):
+    for k in [k for k, v in FLAGS.items() if v > 2]:
+        del FLAGS[k]
     S = Source(repo)
     meta = {}
     out = ["(* GENERATED by props/C15/extract.py from crates/core/src - do not edit *)",
-           "From Coq Require Import String List Bool.", "From Verif.C15 Require Import ModelBase.",
+           "From Coq Require Import String List Bool NArith.", "From Verif.C15 Require Import ModelBase.",
            "Import ListNotations.", "Local Open Scope string_scope.", ""]
     gen_dry(S, out, meta)
     # ---- inventory
@@ -581,8 +592,8 @@ def gen(repo):
         ent[en] = (guard, pre, post)
     def site(e):
         _, kind, ft, conds, guarded, where = e
-        return "mk_site %s %s %s %s %s" % (kind, ("(Some %s)" % ft) if ft else "None", coq_conds(conds),
-                                           "true" if guarded else "false", coq_str(where))
+        return "mk_site %s %s %s %s (* %s *)" % (kind, ("(Some %s)" % ft) if ft else "None", coq_conds(conds),
+                                                "true" if guarded else "false", where)
     out.append("Definition entry_facts (e : entry) : efacts :=\n  match e with")
     for (en, _, _, _) in ENTRIES:
         guard, pre, post = ent[en]
@@ -592,6 +603,9 @@ def gen(repo):
     out.append("  end.\n")
     out.append("Definition covered_fns : list (string * string) :=\n  [ " + ";\n    ".join(
         "(%s, %s)" % (coq_str(r), coq_str(f)) for (r, f) in sorted(covered)) + " ].\n")
+    out.append("Definition flag_names : list (N * string) :=\n  [ " + ";\n    ".join(
+        "(%d%%N, %s)" % (v, coq_str(k)) for k, v in sorted(FLAGS.items(), key=lambda x: x[1])) + " ].\n")
+    meta["flags"] = dict(FLAGS)
     meta["entries"] = {en: {"guard": g, "pre": [(e[1], e[2], e[3], e[4], e[5]) for e in pre],
                             "post": [(e[1], e[2], e[3], e[4], e[5]) for e in post]} for en, (g, pre, post) in ent.items()}
     return "\n".join(out) + "\n", meta
